@@ -470,8 +470,9 @@ mutual
     allowed there: `NewTypeInfo` hands expected types down through list literals at list types and
     object literals at input-object types only; a variable below any other combination has no
     location type ("no type info for location type") and the document is rejected.
-    `unwrap = true` is the behaviour after F-04d's repair (an object literal at a list type gets
-    the item type); the check accepts either (see design note). -/
+    `unwrap = true` is the code as it is now (C04's repair of F-04d: an object literal at a list
+    type is typed by the item type, recursively); `unwrap = false` the behaviour before it, kept
+    for diagnostics. The theorems hold for both. -/
 def usage (defs : List VarDef) (unwrap : Bool) : Ty → Bool → Lit → Bool
   | L, ld, .var n => allowed defs n L ld
   | .nonNull t, ld, lit => usage defs unwrap t ld lit
@@ -559,21 +560,18 @@ def validate (P : Parse) (unwrap : Bool) (c : Case) : Bool :=
   argumentsValid c && valuesValid P c && variablesValid unwrap c
 
 /-- What the client and the resolver see. `invalid`: ParseAndValidate rejects, nothing runs.
-    `reqErr`: CoerceVariableValues fails, nothing runs. `fieldErr`: CoerceArgumentValues fails in
-    `executeField`, the resolver is not called and the client gets a field error. `dropped`:
-    CoerceArgumentValues fails for a *directive* in `collectFieldsImpl`
-    (`err == nil && !def.FieldCollectionFilter(arguments)`): the filter is not called, the
-    selection is kept and **no error is reported** (open finding F-05f). `invoked args`: the
-    resolver (filter) runs and observes exactly `args`. -/
+    `reqErr`: CoerceVariableValues fails, nothing runs. `fieldErr`: CoerceArgumentValues fails —
+    in `executeField` the resolver is not called and the field is an error; in `collectFieldsImpl`
+    (a directive's arguments, patch 05) the filter is not called, the error is reported and the
+    selection is left out. `invoked args`: the resolver (filter) runs and observes exactly `args`. -/
 inductive Outcome where
   | invalid
   | reqErr
   | fieldErr
-  | dropped
   | invoked (args : List (String × GoVal))
   deriving Repr, Inhabited
 
-/-- Coercion as the executor performs it (no validation gate): also what `ValidateCost` does
+/-- Coercion as the executor performs it once the document is valid; `ValidateCost` does the same
     before it calls a cost function. -/
 def coerceCase (P : Parse) (c : Case) : Outcome :=
   match coerceVariableValues P c.varDefs c.raw with
@@ -584,12 +582,9 @@ def coerceCase (P : Parse) (c : Case) : Outcome :=
     | some args => .invoked args
 
 /-- `graphql.Execute`: validate, then coerce, then (only on success) call the resolver or the
-    directive's filter. A directive's coercion error is dropped (executor.go:497). -/
+    directive's filter. The same gate holds for the cost function: additional validation rules
+    (`ValidateCost`) run only on documents the standard rules accept (patch 06). -/
 def run (P : Parse) (unwrap : Bool) (c : Case) : Outcome :=
-  if validate P unwrap c then
-    match coerceCase P c, c.site with
-    | .fieldErr, .directive => .dropped
-    | o, _ => o
-  else .invalid
+  if validate P unwrap c then coerceCase P c else .invalid
 
 end ApiFu.C05
